@@ -131,10 +131,16 @@ type c08Inst struct {
 	msg      []byte
 	squeezed int
 	reading  bool
+	// sumAmbiguous: this ShakeHash was Reset after a Read.  The sponge is back in its initial state (Write and
+	// Read behave like a fresh object) but the wrapper may still refuse Sum; the property says nothing about
+	// Reset, so both a panic and the reference value are accepted for Sum until the next Read, and counted.
+	sumAmbiguous bool
 	// coverage
 	midOps, straddles int
 	shape             *strings.Builder
 }
+
+var c08ResetSum = map[string]int{}
 
 func (x *c08Inst) note(b byte) {
 	if x.shape.Len() < 28 {
@@ -172,6 +178,20 @@ func (x *c08Inst) sum(prefix []byte) error {
 		return nil
 	}
 	want := x.f.out(x.msg, x.f.size)
+	if x.sumAmbiguous {
+		var err error
+		if _, panicked := catch(func() { _, err = sumInto(x.h, prefix, want) }); panicked {
+			c08ResetSum["sum-after-read-reset:panics"]++
+			x.note('~')
+			return nil
+		}
+		c08ResetSum["sum-after-read-reset:reference-value"]++
+		if err != nil {
+			return fmt.Errorf("Sum after Read, Reset, %d bytes did not panic but is wrong, want prefix || %x: %v", len(x.msg), want, err)
+		}
+		x.note('s')
+		return nil
+	}
 	if _, err := sumInto(x.h, prefix, want); err != nil {
 		return fmt.Errorf("after %d bytes, want prefix || %x: %v", len(x.msg), want, err)
 	}
@@ -215,6 +235,14 @@ func (x *c08Inst) read(n int) error {
 func (x *c08Inst) reset() {
 	x.h.Reset()
 	x.msg = nil
+	if x.reading {
+		// Reset after Read: absorbing again from the initial state
+		x.reading, x.squeezed = false, 0
+		if x.f.kind == "shake" || x.f.kind == "cshake" {
+			x.sumAmbiguous = true
+		}
+		c08ResetSum["reset-after-read"]++
+	}
 	x.note('R')
 }
 
@@ -389,8 +417,9 @@ func c08Steps(rt *rapid.T, c *ev.Collector, poolp *[]*c08Inst, n int, data []byt
 				}
 				c.Class("interleave:alternating")
 			}
-		case op == 14 && !x.reading:
-			// Reset is only exercised before any Read of that copy (DESIGN.md C08 limits)
+		case op == 14:
+			// Reset, also after Read: Write and Read must then behave like a fresh object; Sum after
+			// Read->Reset is not asserted either way (see sumAmbiguous)
 			x.reset()
 		default:
 			if err := x.write(data[:min(rapid.IntRange(0, 40).Draw(rt, "wLenDefault"), max(0, 1000-len(x.msg)))]); err != nil {
@@ -405,7 +434,7 @@ func TestC08(t *testing.T) {
 	c := ev.New("C08", "non-trivial: message >= rate, or a Clone/Sum in mid-stream, or a read that straddles a rate boundary; distinct = (function, N/S class, message-length class, operation shape)")
 	defer c.Flush(t)
 	c.Oracle("refhashes.Sponge (byte-wise Keccak[c] sponge + Keccak-f[1600] from FIPS 202 with computed round constants/rotation offsets; SP 800-185 bytepad/encode_string; FIPS 202, SP 800-185 and Keccak-team KATs checked)")
-	c.Assumption("Reset is exercised only before the first Read (Reset-after-Read on ShakeHash is outside the property text)")
+	c.Assumption("Reset after Read is exercised for Write and Read (they must behave like a fresh object); for Sum / Clone().Sum after Read->Reset on a ShakeHash both the panic of the unchanged tree and the reference value are accepted and counted (the property text does not mention Reset)")
 	if err := ref.SelfTestKeccak(); err != nil {
 		c.Inconclusive(err.Error())
 		t.Fatal(err)
@@ -894,6 +923,10 @@ func TestC08(t *testing.T) {
 		}
 		c.ClassN("concurrency:calls", calls)
 	}
+	for k, v := range c08ResetSum {
+		c.ClassN(k, v)
+	}
+	c08ResetSum = map[string]int{}
 	flushSumLayouts(c)
 	switch n, err := py.run(); {
 	case err == nil:
